@@ -110,9 +110,14 @@ def validate_traces(ctx, path, mutate=None):
         f = os.path.join(ctx.tmp, "srtr_%d.ndjson" % i)
         with open(f, "w") as fh:
             fh.write(json.dumps(tr) + "\n")
-        r = common.run_tlc(work, "TraceSendReply", cfg="TraceSendReply.cfg", workers=1, env={"VERIF_IN": f}, timeout=900, xss="64m", deque=True,
-                           heap="1g -XX:ActiveProcessorCount=2 -XX:TieredStopAtLevel=1")
-        os.unlink(f)
+        try:
+            r = common.run_tlc(work, "TraceSendReply", cfg="TraceSendReply.cfg", workers=1, env={"VERIF_IN": f}, timeout=240, xss="64m", deque=True,
+                               heap="1g -XX:ActiveProcessorCount=2 -XX:TieredStopAtLevel=1")
+        except common.Inconclusive:
+            return (tr, "undecided", 0)      # the search did not finish in time: neither accepted nor rejected
+        finally:
+            if os.path.exists(f):
+                os.unlink(f)
         if r["invariant"] == "NotAccepted":
             return (tr, None, r["distinct"])
         if not r["ok"]:
@@ -122,7 +127,10 @@ def validate_traces(ctx, path, mutate=None):
 
     with ThreadPoolExecutor(max_workers=12) as ex:
         results = list(ex.map(one, enumerate(traces)))
-    return len(traces), [(tr, hw) for (tr, hw, _) in results if hw is not None], sum(s for (_, _, s) in results)
+    undecided = sum(1 for (_, hw, _) in results if hw == "undecided")
+    if undecided > max(2, len(traces) // 10):
+        raise common.Inconclusive("trace validation did not finish in time for %d of %d traces" % (undecided, len(traces)))
+    return len(traces) - undecided, [(tr, hw) for (tr, hw, _) in results if hw is not None and hw != "undecided"], sum(s for (_, _, s) in results)
 
 
 def selftest_traces(ctx):
